@@ -34,6 +34,13 @@ def main():
     timer = C.Timer()
     ctx = {"pid": pid, "tier": tier, "seed": seed, "timer": timer, "replay": a.replay}
 
+    # source fingerprints: if the modelled code changed since the model was written, dig deeper (never an alarm by itself)
+    try:
+        import fingerprint
+        ctx["changed_units"] = fingerprint.changed(C.REPO)
+    except Exception:  # noqa: BLE001
+        ctx["changed_units"] = []
+    ctx["boost"] = 6 if (ctx["changed_units"] and tier == "quick") else 1
     build = C.build(targets=list(mod.VFILES))
     ctx["build"] = build
     forbidden = C.scan_forbidden()
@@ -96,6 +103,8 @@ def main():
     cov["print_assumptions"] = ob_reports
     cov["build"] = {"make_rc": build["make_rc"], "translate_rc": build["translate_rc"]}
     cov["known_findings_reported"] = sorted(printed_known)
+    cov["source_units_changed_since_model_was_written"] = ctx["changed_units"][:20]
+    cov["budget_boost"] = ctx["boost"]
     C.write_evidence(pid, tier, seed, cov, timer.s(), n_viol,
                      assumptions=list(getattr(mod, "ASSUMPTIONS", [])), level="proof")
     if n_viol:
